@@ -24,7 +24,7 @@ RULE = ('String frames with a RangeIndex (as every caller builds them): two mult
 ASSUMPTIONS = ['frames with a non-default index are outside the callers contract and not generated',
                'content of interaction / transformed columns is decided by C10 / C12; here only additivity and row alignment']
 
-TOKENS = ['a', 'b', 'c', 'ab', '1', '2', 'x y', 'A']
+TOKENS = ['a', 'b', 'c', 'ab', '1', '2', 'x y', 'A', 'c++', '1.5', '15', 'a?', '[b]', 'a|b', '(1', '$']     # incl. tokens that are regex syntax
 PLAIN = ['', 'u', 'v', 'w', 'u&v', 'uANDv', 'AND', '1', '0', 'x-y', ' ', 'é']
 MISSING_SETS = [',{}', 'NA,{}', '-1', 'a', ',{},b']
 
